@@ -164,7 +164,9 @@ class ExpandedTraceback:
         while tb and self._is_relevant_tb_level(tb):
             tb = tb.tb_next
         length = self._count_relevant_tb_levels(tb)
-        tb_e = traceback.TracebackException(cl, self.exception, tb, limit=length,
+        # Only the stack is used below. Given the student's exception, `traceback` would also inspect it
+        # (3.12 looks for "did you mean" suggestions, running the student's own __getattr__), which can fail
+        tb_e = traceback.TracebackException(Exception, Exception(), tb, limit=length,
                                             capture_locals=False)
         for frame in tb_e.stack:
             self._fix_frame_line(frame)
